@@ -52,6 +52,10 @@ template<class X> void terminals(X&& x, std::string const& path, bool all_mutabl
 	record("begin()[0]", path, tc, ro, false, [&]() -> decltype(auto) { if constexpr(R == 1) { return std::forward<X>(x).begin()[0]; } else { return down(std::forward<X>(x).begin()[0]); } });
 	record("*cbegin()", path, tc, true, false, [&]() -> decltype(auto) { if constexpr(R == 1) { return *x.cbegin(); } else { return down(*x.cbegin()); } });
 	record("cbegin()[0]", path, tc, true, false, [&]() -> decltype(auto) { if constexpr(R == 1) { return x.cbegin()[0]; } else { return down(x.cbegin()[0]); } });
+	if constexpr(R >= 2) {  // the arrow of the leading iterators: it-> designates the same (read-only or mutable) sub-view as *it
+		record("cbegin()->[0]...", path, tc, true, false, [&]() -> decltype(auto) { return down(*x.cbegin().operator->()); });
+		record("begin()->[0]...", path, tc, ro, false, [&]() -> decltype(auto) { return down(*std::forward<X>(x).begin().operator->()); });
+		record("cbegin()->elements()[0]", path, tc, true, false, [&]() -> decltype(auto) { return x.cbegin()->elements()[0]; }); }
 	record("elements()[0]", path, tc, ro, req, [&]() -> decltype(auto) { return std::forward<X>(x).elements()[0]; });
 	record("*elements().begin()", path, tc, ro, false, [&]() -> decltype(auto) { return *std::forward<X>(x).elements().begin(); });
 	record("elements().front()", path, tc, ro, false, [&]() -> decltype(auto) { return std::forward<X>(x).elements().front(); });
